@@ -2,6 +2,7 @@ CONSTANTS
   G = 2
   Ws = {1, 2, 3, 4}
   D <- DQuick
+  Als = {0, 1, 2}
   HasFill = TRUE
 SPECIFICATION Spec
 INVARIANTS Equivariant
